@@ -148,7 +148,8 @@ def endOfLine (flags : Nat) (l : Int) (s : Scan) : Except Panic St := do
     let rd ← rd.advanceLine
     pure { s.st with rd := rd, kids := tk.2 ++ [.text tk.1 (flags / 2 % 2 == 1) (flags % 2 == 1) false] }
 
-/-- the `for { retry: … }` loop; one unit of fuel per pass through `retry:` -/
+/-- the `for { retry: … }` loop; one unit of fuel per pass through `retry:`. The flag `escaped` is kept across a
+    `goto retry` (`.hit`) and cleared at the top of the `for` loop (`.eol`; parser.go:1160, repair 24c9f23) -/
 def lineLoop (env : Env) : Nat → Bool → St → Except Panic St
   | 0, _, _ => .error .loop
   | fuel + 1, escaped, st => do
@@ -166,7 +167,7 @@ def lineLoop (env : Env) : Nat → Bool → St → Except Panic St
         | .hit st escaped => lineLoop env fuel escaped st
         | .eol s => do
           let st ← endOfLine cl.2 p.1 s
-          lineLoop env fuel s.escaped st
+          lineLoop env fuel false st
 
 /-- passes through `retry:`: every pass ends with a parser that consumed at least one byte, with AdvanceLine,
     or with the reader on a later line -/
